@@ -10,7 +10,7 @@ CASE_TYPE = "case09"
 CHECK_FN = "check_cases"
 MISMATCH_IS_VIOLATION = False
 RULE = ("three write paths of the BUILT binary - `wtf save`, `wtf save-pipeline` (notebook) and the history update of `wtf search` - each starting from a populated "
-        "file (notebooks of 2 and 40 entries, histories of 1 and 60 entries). (trace) the system calls on the file's directory are recorded with strace and must be the "
+        "file (notebooks of 2 and 40 entries, histories of 1, 60 and 100 = max_size entries). (trace) the system calls on the file's directory are recorded with strace and must be the "
         "temp-file-then-rename program the theorem is about; (fail) the run is repeated with RLIMIT_FSIZE = k so that the kernel writes exactly k bytes and fails the "
         "rest, for k over a grid of the new content's length (quick) or every k (thorough); (crash) the process is SIGKILLed on entering its n-th write / fsync / rename "
         "call, also combined with a size limit (short write, then death). Afterwards the file must hold the complete previous or the complete new content; `save` must "
@@ -93,7 +93,7 @@ def scenarios(wtf, base):
         return p
     # the notebook is a symbolic link into a dotfiles directory (stow / chezmoi style)
     out.append(("save-symlink/6", True, notebook_path, ["save", "--", "brand new command", "brand new description"], prep_symlinked(6)))
-    for n in (1, 60):
+    for n in (1, 60, 100):   # 100 = a full history: the update also drops the oldest entry
         out.append(("history/%d" % n, False, history_path, ["--database", db, "list files"], prep_history(n)))
     return out
 
